@@ -1618,6 +1618,94 @@ pub fn run_c07_panic_rate(ctx: &mut Ctx) {
     }
     ctx.family_done(family, st, json!({"driver": "enumeration of generated sessions (statistical rule)", "sessions": sessions}));
 }
+/// C07 with the real clock and an allowance the virtual clock cannot express: `go` with a clock that
+/// makes the slice 2^64 ms and more. Whatever the engine reports in the first half second must be a
+/// prefix of what a direct search with a large (virtual) allowance reports - "giving the search a
+/// larger allowance never changes the sequence of improvements, it only extends it".
+pub fn c07_huge_allowance(r: &crate::props::search::RepRecipe, which: u8, st: &mut Stats) -> CaseResult {
+    let Some((start, moves)) = crate::props::search::rep_moves(r) else { return Ok(()) };
+    let Ok(case) = crate::props::search::make_case(&start, &moves) else { return Ok(()) };
+    if case.root.legal_moves().is_empty() {
+        return Ok(());
+    }
+    st.eval();
+    let names: Vec<String> = moves.iter().map(mv_name).collect();
+    let ptext = if names.is_empty() { format!("position fen {}", start.fen()) } else { format!("position fen {} moves {}", start.fen(), names.join(" ")) };
+    let clocks = ["691752902764108120700", "691752902764108128200", "691752902764108158200", "18446744073709551716000", "2126764793255865396646091296448555"];
+    let c = clocks[which as usize % clocks.len()];
+    let go = if case.root.stm == Color::White { format!("go wtime {} btime 1000", c) } else { format!("go btime {} wtime 1000", c) };
+    let once = || -> CaseResult {
+        let mut e = Engine::spawn()?;
+        e.handshake()?;
+        e.send(&ptext);
+        e.send(&go);
+        let (lines, _) = e.read_until(|l| l.starts_with("bestmove"), Duration::from_millis(400));
+        drop(e); // killed: the search would run for millions of years
+        let infos: Vec<String> = lines.iter().map(|x| x.1.clone()).filter(|l| l.starts_with("info")).collect();
+        let bb = info_sig(&infos);
+        let mut budget = 8_000u64;
+        loop {
+            let run = crate::props::search::run_search(&case.board, &case.table, budget);
+            if run.panic.is_some() {
+                return Ok(());
+            }
+            let raw: Vec<String> = run.lines.iter().map(|x| x.1.clone()).collect();
+            let direct = info_sig(&raw);
+            if let Some(i) = common_prefix_equal(&bb, &direct) {
+                return Err(format!("`{}` + `{}` (an allowance of 2^64 ms or more): improvement #{} reported by the real binary is {:?} but a direct search with a large allowance reports {:?} - the larger allowance changed the sequence", ptext, go, i, bb[i], direct[i]));
+            }
+            if direct.len() >= bb.len() || run.queries < budget || budget > 60_000_000 {
+                break;
+            }
+            budget *= 4;
+        }
+        Ok(())
+    };
+    match once() {
+        Ok(()) => {
+            st.nontrivial(fp(&(&ptext, &go)));
+            Ok(())
+        }
+        Err(first) => {
+            if once().is_ok() {
+                st.label("mismatch_not_reproduced_on_a_further_attempt");
+                Ok(())
+            } else {
+                Err(first)
+            }
+        }
+    }
+}
+pub fn run_c07_huge_allowance(ctx: &mut Ctx) {
+    let t = ctx.tier;
+    let saved = (ctx.workers, ctx.max_shrink_iters);
+    ctx.workers = 8;
+    ctx.max_shrink_iters = 8;
+    run_prop(
+        ctx,
+        "real_clock_allowance_of_2_pow_64_ms_vs_direct_search",
+        || (crate::props::search::rep_strategy(30, true), any::<u8>()),
+        t.pick(80, 1_000),
+        |(r, which), st| {
+            st.sample(|| json!({"huge_allowance": true, "game": crate::props::search::rep_json(r), "which": which}));
+            c07_huge_allowance(r, *which, st)
+        },
+        |(r, which)| json!({"huge_allowance": true, "game": crate::props::search::rep_json(r), "which": which}),
+    );
+    ctx.workers = saved.0;
+    ctx.max_shrink_iters = saved.1;
+}
+pub fn replay_c07_huge(case: &Value) -> CaseResult {
+    let g = case.get("game").ok_or("no game")?;
+    let (start, moves) = parse_game_case(g)?;
+    let which = case.get("which").and_then(|x| x.as_u64()).unwrap_or(0) as u8;
+    REPLAY_GAME.with(|r| *r.borrow_mut() = Some((start, moves)));
+    let dummy = crate::props::search::RepRecipe { walk: WalkRecipe { start: Start::Corpus(0), choices: vec![] }, cycles: 0, c1: 0, c2: 0, tail_cut: 0 };
+    let r = c07_huge_allowance(&dummy, which, &mut Stats::new());
+    REPLAY_GAME.with(|r| *r.borrow_mut() = None);
+    r
+}
+
 pub fn replay_c07_panic_rate(case: &Value) -> CaseResult {
     let sessions = case.get("sessions").and_then(|x| x.as_u64()).unwrap_or(120) as usize;
     let (n, p, ex) = panic_batch(sessions, 1, 8)?;
